@@ -131,8 +131,8 @@ package message
 //@   modifies nothing
 //@   ensures result == ite(isComplete, status, graphsync.PartialResponse)
 //@ func Builder.Build
-//@   requires b != nil && b.outgoingResponses != nil
-//@   modifies alloc, allmaps("map[graphsync.RequestID]GraphSyncResponse"), allmaps("map[string]datamodel.Node")
+//@   requires b != nil
+//@   modifies alloc, allmaps("map[graphsync.RequestID]GraphSyncResponse")
 //@   ensures result1 == nil && result0.blocks == b.outgoingBlocks && result0.requests == b.requests
 //@   ensures forall id graphsync.RequestID :: (id in result0.responses) == (id in b.outgoingResponses)
 //@   ensures forall id graphsync.RequestID :: id in b.outgoingResponses ==> result0.responses[id].requestID == id
